@@ -150,8 +150,10 @@ class Ctx:
         """ Pipe operation lines through a Lean line-protocol driver, return output lines """
         text = '\n'.join(lines) + '\n'
         # hold the project lock: another check's extract + build must not swap .olean files under a running driver
-        lock = open(os.path.join(LEAN, '.verif.lock'), 'w')
-        fcntl.flock(lock, fcntl.LOCK_EX)
+        lock = None
+        if not _RUN_LOCK_HELD[0]:
+            lock = open(os.path.join(LEAN, '.verif.lock'), 'w')
+            fcntl.flock(lock, fcntl.LOCK_EX)
         try:
             rc, out, err = sh(['lake', 'env', 'lean', '--run', driver], cwd=LEAN, inp=text, timeout=timeout)
             if rc != 0 and 'object file' in err and 'does not exist' in err:
@@ -160,12 +162,16 @@ class Ctx:
                 sh(['lake', 'build'] + mods, cwd=LEAN, timeout=3000)
                 rc, out, err = sh(['lake', 'env', 'lean', '--run', driver], cwd=LEAN, inp=text, timeout=timeout)
         finally:
-            fcntl.flock(lock, fcntl.LOCK_UN)
+            if lock is not None:
+                fcntl.flock(lock, fcntl.LOCK_UN)
         if rc != 0:
             raise DriverError(f'driver {driver} rc={rc}\n{err[-3000:]}\n{out[-1000:]}')
         res = out.split('\n')
         if res and res[-1] == '': res.pop()
         return res
+
+
+_RUN_LOCK_HELD = [False]   # the whole check run holds lean/.verif.lock (see run_check)
 
 
 class DriverError(Exception):
@@ -310,22 +316,29 @@ def run_check(prop, tier, seed, replay=None):
         print(f'replay {replay}: property {"FAILS" if fails else "holds"} on this input')
         return 1 if fails else 0
     prop_mod = f'{PKG}.Props.{prop}'
+    # One check at a time per /verif checkout: Generated/*.lean and the compiled models are shared, and a concurrent
+    # run against another tree (STARSIM_REPO, testing only) must not swap them between this run's proof and its drivers.
     lock = open(os.path.join(LEAN, '.verif.lock'), 'w')
     fcntl.flock(lock, fcntl.LOCK_EX)
+    _RUN_LOCK_HELD[0] = True
     try:
-        step_extract(ctx, getattr(mod, 'GENERATED', []))
-        if not any(b['kind'] == 'extract' for b in ctx.broken) or True:
-            step_prove(ctx, prop_mod)
-        if ctx.thorough and not ctx.broken:
-            step_leanchecker(ctx, prop_mod)
-        # drivers need the model oleans
-        drv = getattr(mod, 'DRIVER_MODULES', [])
-        if drv:
-            rc, out, err = sh(['lake', 'build'] + drv, cwd=LEAN, timeout=3000)
-            if rc != 0:
-                ctx.broke('proof', ','.join(drv), 'model modules failed to build: ' + (out + err)[-1500:])
+        return _run_check_locked(mod, ctx, prop, prop_mod, tier, seed)
     finally:
+        _RUN_LOCK_HELD[0] = False
         fcntl.flock(lock, fcntl.LOCK_UN)
+
+
+def _run_check_locked(mod, ctx, prop, prop_mod, tier, seed):
+    step_extract(ctx, getattr(mod, 'GENERATED', []))
+    step_prove(ctx, prop_mod)
+    if ctx.thorough and not ctx.broken:
+        step_leanchecker(ctx, prop_mod)
+    # drivers need the model oleans
+    drv = getattr(mod, 'DRIVER_MODULES', [])
+    if drv:
+        rc, out, err = sh(['lake', 'build'] + drv, cwd=LEAN, timeout=3000)
+        if rc != 0:
+            ctx.broke('proof', ','.join(drv), 'model modules failed to build: ' + (out + err)[-1500:])
     # correspondence
     try:
         mod.correspond(ctx)
